@@ -235,8 +235,12 @@ def gen_mesh(o):
     o.src("mesh._instanciate_raw_mesh_data", src, fn)
     body = T.body_nodoc(fn)
     txt = [ast.unparse(s) for s in body]
-    if txt[:3] != ["mesh_data.prepare()", "if dim is None:\n    dim = -1", "dim = max(dim, mesh_data.dimensionality)"]:
+    md = re.fullmatch(r"if dim is None:\n    dim = (-?\d+)", txt[1]) if len(txt) > 2 else None
+    if txt[0] != "mesh_data.prepare()" or not md or txt[2] != "dim = max(dim, mesh_data.dimensionality)":
         T.fail(rel, fn, "unexpected prologue of _instanciate_raw_mesh_data")
+    o.d("(* the optional `dim` argument of load(): absent = %s, then the larger of it and the dimensionality of the data *)" % md.group(1))
+    o.d("Definition instanciate_dim (dim : option Z) (dimensionality : Z) : Z := Z.max (match dim with None => (%s) | Some d => d end) dimensionality."
+        % md.group(1))
     expr = "None"
     for s in reversed(body[3:]):
         if not (isinstance(s, ast.If) and not s.orelse and len(s.body) == 1 and isinstance(s.body[0], ast.Return)):
@@ -259,7 +263,7 @@ def gen_mesh(o):
     txt = [ast.unparse(s) for s in body]
     if len(body) != 4 or txt[1] != "raw_mesh = RawMeshData(mesh)" or txt[3] != "write_by_extension(raw_mesh, filename)":
         T.fail(rel, fn, "unexpected shape of save")
-    mg = re.fullmatch(r"if isinstance\(mesh, VolumeMesh\) and '\.geogram' in filename and all\(\(len\(c\) == (\d+) for c in mesh\.cells\)\):\n    mesh\.connectivity\._compute_adjacent_cell\(\)", txt[0])
+    mg = re.fullmatch(r"if isinstance\(mesh, VolumeMesh\) and '\.geogram' in filename\.lower\(\) and all\(\(len\(c\) == (\d+) for c in mesh\.cells\)\):\n    mesh\.connectivity\._compute_adjacent_cell\(\)", txt[0])
     if not mg:
         T.fail(rel, body[0], "unexpected geogram prologue of save")
     o.d("(* save(): the cell adjacency is computed for a VolumeMesh saved to geogram whose cells all have this many vertices *)")
@@ -1170,8 +1174,79 @@ def gen_stl(o):
     if "writer = Binary_STL_Writer(fp)" not in ast.unparse(ex) or "writer.write(mesh)" not in ast.unparse(ex) or "open(path, 'wb')" not in ast.unparse(ex):
         T.fail(rel, ex, "unexpected export_stl")
 
+# ---------------------------------------------------------------------------------------------- signatures / module state
+KNOWN_DECORATORS = {"classmethod", "staticmethod", "property", "abstractmethod"}
+
+
+def _immutable_default(d):
+    if isinstance(d, ast.Constant):     # None, bool, int, float, str, bytes
+        return True
+    if isinstance(d, ast.UnaryOp) and isinstance(d.op, (ast.USub, ast.UAdd)) and isinstance(d.operand, ast.Constant):
+        return True
+    if isinstance(d, ast.Tuple):
+        return all(_immutable_default(e) for e in d.elts)
+    return False
+
+
+def gen_signatures(o):
+    """every callable of the codec files: no decorator that could memoise / share a result, every default an immutable constant
+    (a default such as `output=RawMeshData()` is one object shared by all calls), no `global` / `nonlocal`, and no module-level
+    mutable state (a result object or a cache living in the module).  The theorems are about one call; these are the
+    syntactic ways in which a second call in the same process could differ from the first."""
+    files = [IO + f for f in ("io.py", "xyz.py", "obj.py", "off.py", "tet.py", "medit.py", "geogram_ascii.py", "stl.py")]
+    n_fun = 0
+    for rel in files + ["mouette/mesh/mesh.py"]:
+        src, tree = T.load(rel)
+        scope = tree
+        if rel.endswith("mesh/mesh.py"):    # only the three functions of the property
+            scope = ast.Module(body=[T.find_def(tree, n, rel) for n in ("_instanciate_raw_mesh_data", "load", "save")], type_ignores=[])
+        else:
+            for st in tree.body:
+                if isinstance(st, (ast.Assign, ast.AnnAssign, ast.AugAssign)):
+                    v = st.value
+                    ok = v is None or _immutable_default(v) or (
+                        isinstance(v, ast.BinOp) and isinstance(v.op, ast.Add)
+                        and all(isinstance(x, ast.Name) or str_const(x) is not None for x in (v.left, v.right)))
+                    if not ok:
+                        T.fail(rel, st, "module-level state `%s` (not an immutable constant)" % ast.unparse(st)[:80])
+                elif not isinstance(st, (ast.Import, ast.ImportFrom, ast.FunctionDef, ast.ClassDef, ast.Expr)):
+                    T.fail(rel, st, "unexpected module-level statement `%s`" % ast.unparse(st)[:80])
+                elif isinstance(st, ast.Expr) and str_const(st.value) is None:
+                    T.fail(rel, st, "module-level expression statement `%s`" % ast.unparse(st)[:80])
+        for n in ast.walk(scope):
+            if isinstance(n, (ast.Global, ast.Nonlocal)):
+                T.fail(rel, n, "`%s`: state shared between calls" % ast.unparse(n))
+            if isinstance(n, (ast.FunctionDef, ast.AsyncFunctionDef, ast.Lambda)):
+                n_fun += 1
+                name = getattr(n, "name", "<lambda>")
+                for d in getattr(n, "decorator_list", []):
+                    if ast.unparse(d) not in KNOWN_DECORATORS:
+                        T.fail(rel, n, "decorator @%s on %s is not known to the translator" % (ast.unparse(d), name))
+                for d in list(n.args.defaults) + [k for k in n.args.kw_defaults if k is not None]:
+                    if not _immutable_default(d):
+                        T.fail(rel, n, "default value `%s` of a parameter of %s is not an immutable constant (one object shared by all calls)"
+                               % (ast.unparse(d), name))
+            if isinstance(n, ast.ClassDef):
+                for d in n.decorator_list:
+                    T.fail(rel, n, "decorator @%s on class %s is not known to the translator" % (ast.unparse(d), n.name))
+    o.d("(* %d callables of the codec files checked: known decorators only, immutable defaults, no global / module-level state *)" % n_fun)
+    # the optional parameters of load / save and their defaults (the call forms the driver exercises)
+    src, tree = T.load("mouette/mesh/mesh.py")
+    for fname, want in (("load", [("filename", None), ("dim", "None"), ("raw", "False")]),
+                        ("save", [("mesh", None), ("filename", None), ("ignore_elements", "None")]),
+                        ("_instanciate_raw_mesh_data", [("mesh_data", None), ("dim", "None")])):
+        fn = T.find_def(tree, fname, "mouette/mesh/mesh.py")
+        a = fn.args
+        if a.vararg or a.kwarg or a.kwonlyargs or a.posonlyargs:
+            T.fail("mouette/mesh/mesh.py", fn, "unexpected parameter kinds of " + fname)
+        names = [x.arg for x in a.args]
+        dfl = [None] * (len(names) - len(a.defaults)) + [ast.unparse(d) for d in a.defaults]
+        if list(zip(names, dfl)) != want:
+            T.fail("mouette/mesh/mesh.py", fn, "signature of %s is %s, expected %s" % (fname, list(zip(names, dfl)), want))
+
+
 # ---------------------------------------------------------------------------------------------- main
-GENS = [gen_io, gen_mesh, gen_xyz, gen_obj, gen_off, gen_tet, gen_medit, gen_geogram, gen_stl]
+GENS = [gen_io, gen_mesh, gen_xyz, gen_obj, gen_off, gen_tet, gen_medit, gen_geogram, gen_stl, gen_signatures]
 
 
 def gen():
